@@ -79,6 +79,39 @@ fn run(text: &str) -> String {
     )
 }
 
+/// toks <hex text> -> the flat token list: `hex(text):j` per token (j = 1 for a punct that is
+/// joint with the next token), group delimiters as tokens of their own.
+fn flat_tokens(text: &str) -> String {
+    fn go(ts: proc_macro2::TokenStream, out: &mut Vec<String>) {
+        use proc_macro2::{Delimiter, Spacing, TokenTree};
+        for tt in ts {
+            match tt {
+                TokenTree::Group(g) => {
+                    let (o, c) = match g.delimiter() {
+                        Delimiter::Parenthesis => ("(", ")"),
+                        Delimiter::Brace => ("{", "}"),
+                        Delimiter::Bracket => ("[", "]"),
+                        Delimiter::None => ("", ""),
+                    };
+                    out.push(format!("{}:0", dump::hex(o)));
+                    go(g.stream(), out);
+                    out.push(format!("{}:0", dump::hex(c)));
+                }
+                TokenTree::Punct(p) => out.push(format!("{}:{}", dump::hex(&p.as_char().to_string()), if p.spacing() == Spacing::Joint { 1 } else { 0 })),
+                other => out.push(format!("{}:0", dump::hex(&other.to_string()))),
+            }
+        }
+    }
+    match proc_macro2::TokenStream::from_str(text) {
+        Err(_) => "lexerr".into(),
+        Ok(ts) => {
+            let mut v = Vec::new();
+            go(ts, &mut v);
+            v.join(" ")
+        }
+    }
+}
+
 fn main() {
     std::panic::set_hook(Box::new(|_| {}));
     let stdin = std::io::stdin();
@@ -89,6 +122,7 @@ fn main() {
         let t: Vec<&str> = line.split_whitespace().collect();
         let a = match t.first().copied() {
             Some("run") => run(&unhex(t.get(1).copied().unwrap_or("-"))),
+            Some("toks") => flat_tokens(&unhex(t.get(1).copied().unwrap_or("-"))),
             _ => "bad-op".to_string(),
         };
         writeln!(out, "{}", a).unwrap();
